@@ -70,6 +70,12 @@ def _label_spec(ctx, spec):
     ctx.label("ratio %s" % ("=1" if spec["rt"] == spec["rb"] else ("<0.5" if spec["rt"] < 0.5 * spec["rb"] else ">=0.5")))
 
 
+def _label_shape(ctx, model):
+    k = model.h / model.spec["rb"]
+    ctx.label("shape " + ("flat: h<lmin/2" if model.h < model.lmin / 2 else
+                          ("h/rb<0.6" if k < 0.6 else ("h/rb<1.2" if k < 1.2 else "h/rb>=1.2"))))
+
+
 def _pose_nontrivial(u):
     u = np.asarray(u, dtype=float)
     return int(np.count_nonzero(u[3:])) >= 2 and math.hypot(u[0], u[1]) >= 0.02
@@ -179,6 +185,7 @@ def c_ik_exact(case, ctx):
     spec = case["spec"]
     sp, model = sps.build_sp(spec)
     _label_spec(ctx, spec)
+    _label_shape(ctx, model)
     _check_parameters(model, "after construction")
     moved, spun = _apply_ops(sp, model, case["ops"], ctx)
     spun = spun or spec.get("spin") is not None
@@ -231,6 +238,7 @@ def c_ik_invariance(case, ctx):
     spec = case["spec"]
     sp, model = sps.build_sp(spec)
     _label_spec(ctx, spec)
+    _label_shape(ctx, model)
     ctx.label("spun" if spec.get("spin") is not None else "not spun")
     u = case["u"]
     _label_u(ctx, u)
@@ -271,6 +279,7 @@ def _fk_roundtrip(case, ctx):
     spec = case["spec"]
     sp, model = sps.build_sp(spec)
     _label_spec(ctx, spec)
+    _label_shape(ctx, model)
     moved, spun = _apply_ops(sp, model, case["ops"], ctx)
     spun = spun or spec.get("spin") is not None
     ctx.label("moved" if moved else "not moved")
@@ -428,9 +437,9 @@ def _fk_cases(kind):
 
 
 CLAUSES = [
-    Clause("ik_exact_geometry", c_ik_exact, _ik_cases(), 600, 4000),
-    Clause("ik_rigid_motion_invariance", c_ik_invariance, _inv_cases(), 400, 3000),
-    Clause("fk_inverts_ik", _fk_roundtrip, _fk_cases("fresh"), 400, 3000),
-    Clause("fk_inverts_ik_moved", _fk_roundtrip, _fk_cases("moved"), 400, 3000),
-    Clause("fk_inverts_ik_spun", _fk_roundtrip, _fk_cases("spun"), 400, 3000),
+    Clause("ik_exact_geometry", c_ik_exact, _ik_cases(), 300, 10000),
+    Clause("ik_rigid_motion_invariance", c_ik_invariance, _inv_cases(), 250, 10000),
+    Clause("fk_inverts_ik", _fk_roundtrip, _fk_cases("fresh"), 300, 10000),
+    Clause("fk_inverts_ik_moved", _fk_roundtrip, _fk_cases("moved"), 250, 10000),
+    Clause("fk_inverts_ik_spun", _fk_roundtrip, _fk_cases("spun"), 250, 10000),
 ]
